@@ -11,6 +11,7 @@ import (
 	"path/filepath"
 	"runtime"
 	"strings"
+	"sync"
 	"testing/synctest"
 	"time"
 
@@ -108,11 +109,20 @@ func (p panicRec) HandlePanic(r interface{}) {
 func init() {
 	logrus.SetOutput(io.Discard)
 	logrus.SetLevel(logrus.PanicLevel)
+	if os.Getenv("VERIF_LOGRUS") != "" {
+		logrus.SetOutput(os.Stderr)
+		logrus.SetLevel(logrus.ErrorLevel)
+	}
 }
 
-type detRand struct{ s uint64 }
+type detRand struct {
+	mu sync.Mutex
+	s  uint64
+}
 
 func (d *detRand) Read(p []byte) (int, error) {
+	d.mu.Lock()
+	defer d.mu.Unlock()
 	for i := range p {
 		d.s ^= d.s << 13
 		d.s ^= d.s >> 7
@@ -456,4 +466,15 @@ func (w *World) CreateRemoteMailbox(u *User, name ...string) (imap.MailboxID, er
 		return id, fmt.Errorf("MailboxCreated(%v) was not acknowledged", name)
 	}
 	return id, r.Err
+}
+
+// CloseServerOnly calls Server.Close (closing the listener first) without touching the
+// client connections: sessions are torn down by the server itself.
+func (w *World) CloseServerOnly() error {
+	w.Sim.OpenGates(true)
+	w.L.Close()
+	err := w.Srv.Close(w.ctx)
+	w.cancel()
+	w.closed = true
+	return err
 }
